@@ -753,13 +753,14 @@ func (g *c17CGen) includeTree(root string) (files []c17File, entry string, inclu
 		entry = filepath.Join(root, "A.DAE")
 		g.stats.Inc("inc.entry-upper-case-suffix")
 	}
-	if g.r.Chance(0.06) {
+	if g.r.Chance(0.15) {
 		files = append(files, c17File{rel: "broken.dae", link: true})
 		g.stats.Inc("inc.dangling-symlink")
 	}
 	incPool := []string{"a.dae", "b.dae", "sub/c.dae", "sub/*.dae", "*.dae", "sub/deep/e.dae", "sub/d.dae", "./a.dae", "sub/../b.dae", "../outside.dae", "sub/../../outside.dae",
 		"x.conf", "sub/notes.txt", "dir.dae", "*", "sub/*", "nonexistent.dae", "sub/[cd].dae", "sub/?.dae", "[", "config.dae", "sub/z.dae", "*/*.dae", "a.dae/", "",
 		"a.dae.bak", "A.DAE", "x.daemon", ".dae", "conf.dae/notes.txt", "conf.dae", "conf.dae/*", ".hidden.dae", "my file.dae", "*.bak", "*.DAE", "a.dae*", ".*", "broken.dae", "config.dae.bak",
+		root + "/./a.dae", root + "/sub/../a.dae", root + "//b.dae", root + "/sub/./d.dae", // unclean absolute spellings: not cleaned by Merger
 		filepath.Join(root, "a.dae"), filepath.Join(root, "sub", "*.dae"), "/etc/passwd", filepath.Join(filepath.Dir(root), "outside.dae"), filepath.Join(root, "..", filepath.Base(root), "b.dae")}
 	for _, n := range names {
 		f := c17File{rel: n, perm: 0o640}
@@ -926,8 +927,15 @@ func (w *c17Watch) Drain() (opened []string) {
 			off += unix.SizeofInotifyEvent + int(ev.Len)
 		}
 	}
+	// a set: inotify coalesces identical successive events, so the number of opens of one file is not observable
 	sort.Strings(opened)
-	return opened
+	out := opened[:0]
+	for i, p := range opened {
+		if i == 0 || p != opened[i-1] {
+			out = append(out, p)
+		}
+	}
+	return out
 }
 
 func c17MergeErrClass(err error) string {
@@ -1029,6 +1037,15 @@ func TestVerifC17Config(t *testing.T) {
 				b[j] = alpha[r.Intn(len(alpha))]
 			}
 			decVals = append(decVals, string(b))
+		}
+		for _, v := range []string{"GET", "POST", "PUT", "PATCH", "DELETE", "COPY", "HEAD", "OPTIONS", "LINK", "UNLINK", "PURGE", "LOCK", "UNLOCK", "PROPFIND", "CONNECT", "TRACE",
+			"get", "Head", "CONNECT ", " GET", "", "FOO", "GETS", "HEA", "QUERY", "head", "TRACE\n"} {
+			res, ok := schema.oracle(101, v) // common.IsValidHttpMethod against its word list
+			out := "err"
+			if ok {
+				out = "ok " + c17Esc(res)
+			}
+			st.Emit(fmt.Sprintf("d 101 %s", c17H(v)), out)
 		}
 		for k := range schema.kinds {
 			if c17SpecTag(schema.kinds[k]) == "o" {
@@ -1152,6 +1169,53 @@ func TestVerifC17Config(t *testing.T) {
 			_ = os.WriteFile(p, []byte(f.content), f.perm)
 			_ = os.Chmod(p, f.perm)
 		}
+		// the SPELLING of the entry path: production passes whatever the user typed after -c
+		origWd, _ := os.Getwd()
+		if i >= nDirected || i%2 == 1 {
+			dir, baseName := filepath.Dir(entry), filepath.Base(entry)
+			_ = os.MkdirAll(filepath.Join(dir, "sub"), 0o750)
+			switch k := r.Intn(100); {
+			case k < 6: // relative, from the entry's own directory: entryDir = "."
+				_ = os.Chdir(dir)
+				entry = baseName
+				stats.Inc("inc.entry-spelling.relative-here")
+			case k < 11: // relative, from the parent directory
+				_ = os.Chdir(filepath.Dir(dir))
+				entry = filepath.Base(dir) + "/" + baseName
+				stats.Inc("inc.entry-spelling.relative-from-parent")
+			case k < 16: // relative with a leading ..
+				_ = os.Chdir(filepath.Join(dir, "sub"))
+				entry = "../" + baseName
+				stats.Inc("inc.entry-spelling.relative-dotdot")
+			case k < 20:
+				entry = dir + "/./" + baseName
+				stats.Inc("inc.entry-spelling.abs-dot")
+			case k < 24:
+				entry = dir + "/sub/../" + baseName
+				stats.Inc("inc.entry-spelling.abs-dotdot")
+			case k < 27:
+				entry = dir + "//" + baseName
+				stats.Inc("inc.entry-spelling.abs-double-slash")
+			case k < 30:
+				entry = entry + "/"
+				stats.Inc("inc.entry-spelling.trailing-slash")
+			case k < 35: // a symbolic link in the entry directory pointing to the entry file
+				link := filepath.Join(dir, "link.dae")
+				if os.Symlink(entry, link) == nil {
+					entry = link
+					stats.Inc("inc.entry-spelling.symlink-inside")
+				}
+			case k < 38: // a symbolic link pointing OUT of the entry directory (lexical confinement follows it)
+				link := filepath.Join(dir, "link.dae")
+				if os.Symlink(outside, link) == nil {
+					entry = link
+					stats.Inc("inc.entry-spelling.symlink-outside")
+				}
+			default:
+				stats.Inc("inc.entry-spelling.clean-absolute")
+			}
+		}
+		cwd, _ := os.Getwd()
 		// describe the tree as the real file system shows it
 		var fw []string
 		nFiles := 0
@@ -1161,7 +1225,10 @@ func TestVerifC17Config(t *testing.T) {
 			}
 			kind, content := "f", ""
 			if fi.Mode()&os.ModeSymlink != 0 {
-				return nil // only dangling links are generated: os.Stat fails on them, so they are absent for the model
+				target, _ := os.Readlink(p)
+				fw = append(fw, c17H(p), "l", "0", c17H(target))
+				nFiles++
+				return nil
 			}
 			if fi.IsDir() {
 				kind = "d"
@@ -1225,8 +1292,9 @@ func TestVerifC17Config(t *testing.T) {
 			if !strings.HasSuffix(openedReal[j], ".dae") {
 				stats.Inc("inc.opened.NOT-DAE")
 			}
-			if rel, err := filepath.Rel(filepath.Dir(entry), openedReal[j]); err != nil || strings.HasPrefix(rel, "..") {
-				stats.Inc("inc.opened.OUTSIDE")
+			absDir, _ := filepath.Abs(filepath.Dir(entry))
+			if rel, err := filepath.Rel(absDir, openedReal[j]); err != nil || strings.HasPrefix(rel, "..") {
+				stats.Inc("inc.opened.real-file-outside-entry-dir(symlink)")
 			}
 			openedReal[j] = c17Esc(openedReal[j])
 		}
@@ -1241,7 +1309,8 @@ func TestVerifC17Config(t *testing.T) {
 		if i < nDirected+2 && shard == 0 {
 			stats.Sample("merge: " + out)
 		}
-		st.Emit(fmt.Sprintf("m %s F %d %s G %d %s", c17H(entry), nFiles, strings.Join(fw, " "), nGlobs, strings.Join(gw, " ")), out)
+		st.Emit(fmt.Sprintf("m %s C %s F %d %s G %d %s", c17H(entry), c17H(cwd), nFiles, strings.Join(fw, " "), nGlobs, strings.Join(gw, " ")), out)
+		_ = os.Chdir(origWd)
 		_ = os.RemoveAll(filepath.Join(base, fmt.Sprintf("t%d", i)))
 	}
 }
